@@ -67,6 +67,20 @@ Theorem C06_def_change_traces_to_correct_cache :
 Proof. exact OutcomeEndToEnd.llo_def_change_traces_to_correct_cache. Qed.
 Print Assumptions C06_def_change_traces_to_correct_cache.
 
+(* ... and the lifecycle: with at most f faulty senders, an instance retires only if some correct node's ShouldRetire cache
+   said so, and a staging instance is promoted only on an attestation that the retirement-report cache verifies *)
+Theorem C06_stage_change_traces_back :
+  forall h check codec_ok cf seq prev_bytes (ss : list OutcomeEndToEnd.lsender) prev next,
+  ReportsNoPanic.bok prev_bytes -> OutcomeEndToEnd.lsenders_ok codec_ok cf seq prev_bytes ss -> 1 < seq ->
+  outcome_step h cf seq prev (map fst (OutcomeEndToEnd.tagged check codec_ok cf seq prev_bytes ss)) = Ok next ->
+  (length (List.filter (fun p : option observation * bool => negb (snd p)) (OutcomeEndToEnd.tagged check codec_ok cf seq prev_bytes ss)) <= c_f cf)%nat ->
+  o_stage next <> o_stage prev ->
+  (o_stage next = Retired /\ exists i, (exists rms ups vals, In (OutcomeEndToEnd.LCorrect i rms ups vals) ss) /\ OutcomeEndToEnd.oi_retire i = Ok true) \/
+  (o_stage prev = Staging /\ o_stage next = Production /\ c_has_pred cf = true /\
+   exists va ob, Some ob ∈ map fst (OutcomeEndToEnd.tagged check codec_ok cf seq prev_bytes ss) /\ ob_att ob = GoodAttest va).
+Proof. exact OutcomeEndToEnd.llo_stage_change_traces_back. Qed.
+Print Assumptions C06_stage_change_traces_back.
+
 Example C06_nv_end_to_end :
   ReportsNoPanic.bok NvE2E.e6_prev_bytes /\ OutcomeEndToEnd.lsenders_ok (fun _ => true) nv_cf 2 NvE2E.e6_prev_bytes NvE2E.e6_ss /\
   (length (List.filter (fun p : option observation * bool => negb (snd p)) NvE2E.e6_tagged) <= c_f nv_cf)%nat /\
